@@ -45,6 +45,12 @@ CHECKS = {
                 technique="bounded model checking in z3 of control-flow automata compiled from the real _terminate_execution/serve/integrate_as_primary_thread/executetask code with a model clock for the bounded waits",
                 text="Bounded model checking of the worker-side termination protocol after loss of the initiator: every explored state reaches 'process gone' within a model time of 15 s. The operating system (signals, real kills) is a stub; the claim is about the protocol.",
                 note="trusted: translator (validated per run), primitive models, SIGINT/os._exit/body stubs and the time rule listed in the evidence, z3; real processes and signals are outside"),
+    "C02": dict(cat="other", ref="DESIGN.md §4 C02 (E1 variant, see §11)", technique="CrossHair symbolic execution of the real send path and the peer's receive path with the senders' interleaving as a symbolic merge order of whole frames",
+                text="Bounded symbolic check: for every order-preserving interleaving of two senders' frames (symbolic), symbolic item values and chunking, the peer's per-channel sequences equal the per-channel wire order. Interleavings are at frame (send-call) granularity; preemption inside a send is C08's schedule part.",
+                note=E1_NOTE + "; queue.Queue thread-safety and frame atomicity are assumed"),
+    "C03": dict(cat="other", ref="DESIGN.md §4 C03 (E1 variant, see §11)", technique="CrossHair symbolic execution of the close protocol on both sides over histories (explicit close / end of remote_exec / reference drop) with symbolic items, sibling traffic and number of late receives",
+                text="Bounded symbolic check of close-after-data ordering and of both sides' post-close behaviour; several concurrently blocked receivers are outside this check.",
+                note=E1_NOTE + "; receiver thread body runs synchronously"),
 }
 
 NOT_APPLICABLE = [
